@@ -214,7 +214,8 @@ def run_shard(ctx: ShardCtx) -> ShardResult:
         try:
             add_mps_db(env, hd, [
                 {'pid': 'p1', 'stream': 'bbb', 'start': 4, 'duration': 16, 'tracks': [('video', 1, 'main'), ('audio', 2, 'main')]},
-                {'pid': 'p2', 'stream': 'tears', 'start': 8, 'duration': 12, 'tracks': [('video', 1, 'main'), ('audio', 2, 'main')]}],
+                # (the id of a period is free text for the API as well)
+                {'pid': hd[:24], 'stream': 'tears', 'start': 8, 'duration': 12, 'tracks': [('video', 1, 'main'), ('audio', 2, 'main')]}],
                 title='hostile name')
             hostile_mps = hd
         except Exception:
